@@ -260,6 +260,7 @@ Section WithParams.
   Variable valid : bytes -> bytes -> bool.
   Variable bdef : pmap.
   Variable hb : pgs -> bool.
+  Variable session : nat -> bool.
   Hypothesis Hbdef : bdef_ok valid bdef = true.
   Hypothesis Hhb : forall p, is_unclean p = true -> hb p = true.
 
@@ -950,7 +951,7 @@ Section WithParams.
       Idle (w_srv w s) /\ (w_oos w = false -> Clean (b_sess (truth (w_srv w s))));
     inv_held : forall s c, w_owner w s = Some c ->
       exists cl, w_cli w c = Some cl /\ c_held cl = Some s /\
-        Agree (c_map cl) (truth (w_srv w s)) /\ in_txn (pg (w_srv w s)) = true /\
+        Agree (c_map cl) (truth (w_srv w s)) /\ (in_txn (pg (w_srv w s)) = true \/ session c = true) /\
         Quies (truth (w_srv w s)) (flags (pg (w_srv w s))) /\
         (w_oos w = false -> CleanOK (truth (w_srv w s)) (flags (pg (w_srv w s))));
     inv_cli : forall c cl, w_cli w c = Some cl ->
@@ -992,8 +993,20 @@ Section WithParams.
   Lemma tvals_ext : forall f g, (forall k, tracked k = true -> f k = g k) -> tvals f = tvals g.
   Proof. intros. unfold tvals. apply map_ext_in. intros k Hk. apply H. apply tracked_in. auto. Qed.
 
-  (** invariants that only mention parts of the world a step did not touch *)
-  Lemma step_inv : forall w o, op_ok o -> Inv w -> Inv (step valid bdef hb w o).
+  Lemma inv_ext : forall w1 w2, (forall s, w_srv w1 s = w_srv w2 s) -> (forall c, w_cli w1 c = w_cli w2 c) ->
+    (forall s, w_owner w1 s = w_owner w2 s) -> w_oos w1 = w_oos w2 -> w_log w1 = w_log w2 -> Inv w1 -> Inv w2.
+  Proof.
+    intros w1 w2 E1 E2 E3 E4 E5 H. constructor.
+    - intros s. rewrite <- E1. apply (inv_srv w1 H).
+    - intros s Ho. rewrite <- E1, <- E4. apply (inv_idle w1 H). rewrite E3. auto.
+    - intros s c Ho. rewrite <- E3 in Ho. destruct (inv_held w1 H s c Ho) as [cl Hx]. exists cl.
+      rewrite <- E1, <- E2, <- E4. exact Hx.
+    - intros c cl Hc. rewrite <- E2 in Hc. destruct (inv_cli w1 H c cl Hc) as (A & B0 & C & D).
+      split; auto. split; auto. split; auto. intros s Hs. rewrite <- E3. auto.
+    - intros c s co dk bv cv evv Hin. rewrite <- E5 in Hin. rewrite <- E4. eapply (inv_log w1 H); eauto.
+  Qed.
+
+  Lemma step_inv : forall w o, op_ok o -> Inv w -> Inv (step valid bdef hb session w o).
   Proof.
     intros w o Hok HI. destruct o as [c raw|c s0 ss|c|c]; cbn [step].
     - (* OConnect *)
@@ -1087,8 +1100,9 @@ Section WithParams.
                                        (EvSync c s (if checkout then sync_diff sv0 (c_map cl) else [])) (w_log w)) ->
                      In x (w_log w) \/ (forall a b c d e f g, x <> EvStmt a b c d e f g)).
       { intros x Hx. apply in_log_if in Hx. destruct Hx as [Hx|Hx]; auto. right. intros. subst. discriminate. }
-      destruct (in_txn p') eqn:Eit.
+      destruct (in_txn p' || session c) eqn:Eit.
       + (* the client keeps the server *)
+        apply orb_true_iff in Eit.
         constructor; cbn [w_srv w_cli w_owner w_oos w_log].
         * intros s'. destruct (Nat.eq_dec s' s) as [E|E]; [subst; rewrite upd_eq; auto|rewrite upd_neq by auto; apply (inv_srv w HI)].
         * intros s' Ho. destruct (Nat.eq_dec s' s) as [E|E]; [subst; rewrite upd_eq in Ho; discriminate|].
@@ -1185,9 +1199,33 @@ Section WithParams.
       destruct (c_held cl) as [s|] eqn:Eh.
       + pose proof (Hown s eq_refl) as Ho.
         destruct (inv_held w HI s c Ho) as [cl' (Hc' & Hheld & Hag & Hit & Hq & Hcl)].
-        assert (Hb : hb (pg (w_srv w s)) = true).
-        { apply Hhb. unfold is_unclean. rewrite Hit. reflexivity. }
-        rewrite Hb. destruct fresh_inv as (F1 & F2 & F3).
+        destruct fresh_inv as (F1 & F2 & F3).
+        (* either the connection is replaced, or it goes back as it is: then its flags are clear *)
+        assert (Hnew : exists sv', (if hb (pg (w_srv w s)) then sv' = fresh_srv bdef else sv' = w_srv w s) /\
+                       SrvInv sv' /\ Idle sv' /\ (w_oos w = false -> Clean (b_sess (truth sv')))).
+        { destruct (hb (pg (w_srv w s))) eqn:Hb.
+          - exists (fresh_srv bdef). auto.
+          - exists (w_srv w s). split; auto. split; [apply (inv_srv w HI)|].
+            assert (Hu : is_unclean (pg (w_srv w s)) = false).
+            { destruct (is_unclean (pg (w_srv w s))) eqn:E; auto. rewrite (Hhb _ E) in Hb. discriminate. }
+            unfold is_unclean in Hu. apply orb_false_iff in Hu. destruct Hu as [Hu1 Hu2].
+            assert (Hti : b_txn (truth (w_srv w s)) = TI).
+            { unfold Quies, flags in Hq. cbn [snd] in Hq. rewrite Hu1 in Hq.
+              destruct (b_txn (truth (w_srv w s))); auto; discriminate. }
+            split; [constructor; auto|].
+            intros Ho0. specialize (Hcl Ho0). unfold CleanOK, flags in Hcl. cbn [fst] in Hcl.
+            destruct (Hcl Hu2) as [Hx _]. exact Hx. }
+        destruct Hnew as (sv' & Hsv' & N1 & N2 & N3).
+        apply (inv_ext (mkW (upd (w_srv w) s sv') (upd (w_cli w) c None) (upd (w_owner w) s None) (w_oos w)
+                            (if hb (pg (w_srv w s)) then EvReplaced s :: w_log w else w_log w))).
+        { intros s'. destruct (hb (pg (w_srv w s))); subst sv'; cbn [w_srv]; auto.
+          unfold upd. destruct (Nat.eqb s' s) eqn:E; auto. apply Nat.eqb_eq in E. subst. auto. }
+        { intros c'. destruct (hb (pg (w_srv w s))); auto. }
+        { intros s'. destruct (hb (pg (w_srv w s))); auto. }
+        { destruct (hb (pg (w_srv w s))); auto. }
+        { destruct (hb (pg (w_srv w s))); auto. }
+        assert (F1' := N1). assert (F2' := N2). assert (F3' := N3). clear F1 F2 F3.
+        rename F1' into F1. rename F2' into F2. rename F3' into F3.
         constructor; cbn [w_srv w_cli w_owner w_oos w_log].
         * intros s'. destruct (Nat.eq_dec s' s) as [E|E]; [subst; rewrite upd_eq; auto|rewrite upd_neq by auto; apply (inv_srv w HI)].
         * intros s' Ho'. destruct (Nat.eq_dec s' s) as [E|E].
@@ -1204,8 +1242,8 @@ Section WithParams.
           destruct (Nat.eq_dec s' s) as [E2|E2].
           -- subst s'. pose proof (C4 s Hs'). congruence.
           -- rewrite upd_neq by auto. auto.
-        * intros c1 s1 co dk bv cv evv Hin. destruct Hin as [Hin|Hin]; [discriminate|].
-          apply (inv_log w HI _ _ _ _ _ _ _ Hin).
+        * intros c1 s1 co dk bv cv evv Hin. destruct (hb (pg (w_srv w s))); [destruct Hin as [Hin|Hin]; [discriminate|]|];
+            apply (inv_log w HI _ _ _ _ _ _ _ Hin).
       + constructor; cbn [w_srv w_cli w_owner w_oos w_log]; try apply HI.
         * intros s' c' Ho'. destruct (inv_held w HI s' c' Ho') as [cl2 (Hc2 & Hheld2 & Hrest)].
           assert (c' <> c). { intros Ex. subst c'. rewrite Ec in Hc2. inversion Hc2; subst cl2. congruence. }
@@ -1214,7 +1252,7 @@ Section WithParams.
           rewrite upd_neq in Hc2 by auto. apply (inv_cli w HI c' cl2 Hc2).
   Qed.
 
-  Lemma run_from_inv : forall ops w, startup_valid valid ops = true -> Inv w -> Inv (run_from valid bdef hb w ops).
+  Lemma run_from_inv : forall ops w, startup_valid valid ops = true -> Inv w -> Inv (run_from valid bdef hb session w ops).
   Proof.
     induction ops as [|o ops IH]; intros w Hv HI; auto.
     unfold startup_valid in Hv. cbn [forallb] in Hv. apply andb_true_iff in Hv. destruct Hv as [Ho Hv].
@@ -1222,19 +1260,19 @@ Section WithParams.
     destruct o; cbn [op_ok]; auto.
   Qed.
 
-  Lemma run_inv : forall ops, startup_valid valid ops = true -> Inv (run valid bdef hb ops).
+  Lemma run_inv : forall ops, startup_valid valid ops = true -> Inv (run valid bdef hb session ops).
   Proof. intros. apply run_from_inv; auto. apply inv_init. Qed.
 
   Lemma synced_before_statement : forall ops, startup_valid valid ops = true ->
-    forall c s co dk bv cv evv, In (EvStmt c s co dk bv cv evv) (w_log (run valid bdef hb ops)) -> bv = cv.
+    forall c s co dk bv cv evv, In (EvStmt c s co dk bv cv evv) (w_log (run valid bdef hb session ops)) -> bv = cv.
   Proof. intros ops H c s co dk bv cv evv Hin. eapply (inv_log _ (run_inv ops H)); eauto. Qed.
 
-  Lemma handoff_clean : forall ops, startup_valid valid ops = true -> w_oos (run valid bdef hb ops) = false ->
-    forall c s dk bv cv evv, In (EvStmt c s true dk bv cv evv) (w_log (run valid bdef hb ops)) -> dk = [].
+  Lemma handoff_clean : forall ops, startup_valid valid ops = true -> w_oos (run valid bdef hb session ops) = false ->
+    forall c s dk bv cv evv, In (EvStmt c s true dk bv cv evv) (w_log (run valid bdef hb session ops)) -> dk = [].
   Proof. intros ops H Ho c s dk bv cv evv Hin. eapply (inv_log _ (run_inv ops H)); eauto. Qed.
 
   Lemma told_same : forall ops, startup_valid valid ops = true ->
-    forall c cl, w_cli (run valid bdef hb ops) c = Some cl ->
+    forall c cl, w_cli (run valid bdef hb session ops) c = Some cl ->
     forall k, tracked k = true -> pget k (c_map cl) = pget k (c_told cl).
   Proof. intros ops H c cl Hc. apply (inv_cli _ (run_inv ops H) c cl Hc). Qed.
 
@@ -1278,7 +1316,7 @@ Section WithParams.
     inv2_cli : forall c cl, w_cli w c = Some cl -> EstOK cl;
     inv2_log : forall c s co dk bv cv evv, In (EvStmt c s co dk bv cv evv) (w_log w) -> cv = evv }.
 
-  Lemma step_inv2 : forall w o, Inv2 w -> Inv2 (step valid bdef hb w o).
+  Lemma step_inv2 : forall w o, Inv2 w -> Inv2 (step valid bdef hb session w o).
   Proof.
     intros w o [HC HL]. destruct o as [c raw|c s0 ss|c|c]; cbn [step].
     - destruct (w_cli w c) eqn:Ec; [constructor; auto|].
@@ -1327,7 +1365,8 @@ Section WithParams.
                                        (EvSync c s (if checkout then sync_diff (w_srv w s) (c_map cl) else [])) (w_log w)) ->
                      In x (w_log w) \/ (forall a b c d e f g, x <> EvStmt a b c d e f g)).
       { intros x Hx. apply in_log_if in Hx. destruct Hx as [Hx|Hx]; auto. right. intros. subst. discriminate. }
-      destruct (snd (flags_after (need_set (pg sv1), in_txn (pg sv1)) evs)) eqn:Eit; cbn [in_txn].
+      cbn [in_txn].
+      destruct (snd (flags_after (need_set (pg sv1), in_txn (pg sv1)) evs) || session c) eqn:Eit.
       + constructor; cbn [w_cli w_log].
         * intros c' cl' Hc. destruct (Nat.eq_dec c' c) as [E|E].
           -- subst. rewrite upd_eq in Hc. inversion Hc; subst. apply He2.
@@ -1355,16 +1394,16 @@ Section WithParams.
       intros c1 s1 co dk bv cv evv Hin. destruct Hin as [Hin|Hin]; [discriminate|]. eauto.
   Qed.
 
-  Lemma run_from_inv2 : forall ops w, Inv2 w -> Inv2 (run_from valid bdef hb w ops).
+  Lemma run_from_inv2 : forall ops w, Inv2 w -> Inv2 (run_from valid bdef hb session w ops).
   Proof.
     induction ops as [|o ops IH]; intros w HI; auto.
     unfold run_from. cbn [fold_left]. apply IH; auto. apply step_inv2; auto.
   Qed.
 
   Lemma established : forall ops,
-    forall c s co dk bv cv evv, In (EvStmt c s co dk bv cv evv) (w_log (run valid bdef hb ops)) -> cv = evv.
+    forall c s co dk bv cv evv, In (EvStmt c s co dk bv cv evv) (w_log (run valid bdef hb session ops)) -> cv = evv.
   Proof.
-    intros ops. apply (inv2_log (run valid bdef hb ops)). apply run_from_inv2; auto.
+    intros ops. apply (inv2_log (run valid bdef hb session ops)). apply run_from_inv2; auto.
     constructor; cbn [init w_cli w_log]; intros; [discriminate|contradiction].
   Qed.
 
@@ -1372,7 +1411,7 @@ Section WithParams.
   Definition op_client (o : op) : nat :=
     match o with OConnect c _ => c | OQuery c _ _ => c | ODisconnect c => c | OAbort c => c end.
 
-  Lemma step_frame : forall w o c, op_client o <> c -> w_cli (step valid bdef hb w o) c = w_cli w c.
+  Lemma step_frame : forall w o c, op_client o <> c -> w_cli (step valid bdef hb session w o) c = w_cli w c.
   Proof.
     intros w o c Hne. destruct o as [c0 raw|c0 s0 ss|c0|c0]; cbn [op_client] in Hne; cbn [step].
     - destruct (w_cli w c0); auto. destruct (startup_decode raw); cbn [w_cli]; auto. apply upd_neq. auto.
@@ -1383,7 +1422,7 @@ Section WithParams.
                 end) as [[s checkout]|]; auto.
       destruct (be_query valid bdef _ ss) as [b' evs].
       destruct (recv_all _ _ evs) as [cm' p'].
-      destruct (in_txn p'); [|rewrite release_spec]; cbn [w_cli]; apply upd_neq; auto.
+      destruct (in_txn p' || session c0); [|rewrite release_spec]; cbn [w_cli]; apply upd_neq; auto.
     - destruct (w_cli w c0) as [cl|]; auto. destruct (c_held cl); [rewrite release_spec|]; cbn [w_cli]; apply upd_neq; auto.
     - destruct (w_cli w c0) as [cl|]; auto.
       destruct (c_held cl); [destruct (hb _)|]; cbn [w_cli]; apply upd_neq; auto.
@@ -1391,7 +1430,7 @@ Section WithParams.
 
   (** the ParameterStatus frames sent at startup are exactly the client's map *)
   Lemma connect_told : forall w c raw ps, w_cli w c = None -> startup_decode raw = Some ps ->
-    let w' := step valid bdef hb w (OConnect c raw) in
+    let w' := step valid bdef hb session w (OConnect c raw) in
     exists cl, w_cli w' c = Some cl /\ c_told cl = c_map cl /\ c_map cl = set_from_list (pool bdef) ps false /\
                w_log w' = EvTold c (c_map cl) :: w_log w.
   Proof.
@@ -1418,25 +1457,25 @@ Proof.
       intros Hc. apply Hnin. eapply Permutation_in; [apply Permutation_sym; apply Permutation_map|]; eauto.
 Qed.
 
-Lemma told_same_all : forall valid bdef hb,
+Lemma told_same_all : forall valid bdef hb session,
   bdef_ok valid bdef = true -> (forall p, is_unclean p = true -> hb p = true) ->
   (forall w c raw ps, w_cli w c = None -> startup_decode raw = Some ps ->
-     exists cl, w_cli (step valid bdef hb w (OConnect c raw)) c = Some cl /\ c_told cl = c_map cl /\
+     exists cl, w_cli (step valid bdef hb session w (OConnect c raw)) c = Some cl /\ c_told cl = c_map cl /\
                 c_map cl = set_from_list (pool bdef) ps false /\
-                w_log (step valid bdef hb w (OConnect c raw)) = EvTold c (c_map cl) :: w_log w) /\
+                w_log (step valid bdef hb session w (OConnect c raw)) = EvTold c (c_map cl) :: w_log w) /\
   (forall ops, startup_valid valid ops = true ->
-     forall c cl, w_cli (run valid bdef hb ops) c = Some cl ->
+     forall c cl, w_cli (run valid bdef hb session ops) c = Some cl ->
      forall k, tracked k = true -> pget k (c_map cl) = pget k (c_told cl)).
-Proof. intros valid bdef hb H1 H2. split; [exact (connect_told valid bdef hb)|exact (told_same valid bdef hb H1 H2)]. Qed.
+Proof. intros valid bdef hb session H1 H2. split; [exact (connect_told valid bdef hb session)|exact (told_same valid bdef hb session H1 H2)]. Qed.
 
-Lemma no_cross_client : forall valid bdef hb,
+Lemma no_cross_client : forall valid bdef hb session,
   bdef_ok valid bdef = true -> (forall p, is_unclean p = true -> hb p = true) ->
   forall ops, startup_valid valid ops = true ->
   forall c s dk bv cv evv,
-    In (EvStmt c s true dk bv cv evv) (w_log (run valid bdef hb ops)) ->
-    bv = cv /\ (w_oos (run valid bdef hb ops) = false -> dk = []).
+    In (EvStmt c s true dk bv cv evv) (w_log (run valid bdef hb session ops)) ->
+    bv = cv /\ (w_oos (run valid bdef hb session ops) = false -> dk = []).
 Proof.
-  intros valid bdef hb H1 H2 ops H3 c s dk bv cv evv Hin. split.
-  - exact (synced_before_statement valid bdef hb H1 H2 ops H3 c s true dk bv cv evv Hin).
-  - intros Ho. exact (handoff_clean valid bdef hb H1 H2 ops H3 Ho c s dk bv cv evv Hin).
+  intros valid bdef hb session H1 H2 ops H3 c s dk bv cv evv Hin. split.
+  - exact (synced_before_statement valid bdef hb session H1 H2 ops H3 c s true dk bv cv evv Hin).
+  - intros Ho. exact (handoff_clean valid bdef hb session H1 H2 ops H3 Ho c s dk bv cv evv Hin).
 Qed.
